@@ -262,6 +262,7 @@ def remover_correspondence(chk, drv, quick):
             r = rng.random()
             if present and r < 0.6:
                 m, o, a = rng.choice(present)
+                m = m.lstrip(".") or rng.choice(applygen.MODS)     # a stub's imports are absolute
                 if rng.random() < 0.25:
                     a = rng.choice(applygen.ALIASES)          # same item, other alias
                 if rng.random() < 0.15:
